@@ -17,7 +17,7 @@ CLAIMS = {
  'C03': dict(text='Symbolic execution of FileBackedProject::semantic (parse/analyze as nondeterministic stubs, hash order nondeterministic) and of xform_toposort_declarations::apply on declaration pairs with symbolic names; '
                   'the solver decides that no parse error, analysis error or declaration is lost. Models are replayed through Project::semantic / ironplcc check / analyze.',
              tech='SMT-guided bounded symbolic execution of rustc MIR (z3)', sect='§4 C03',
-             note='Kernels K1, K3, K4 (same-name declarations diagnosed by resolve_types). Outside: per-rule behaviour in company of other declarations (argued from C02), sets larger than the bounds.'),
+             note='Kernels K1, K3, K4 (same-name declarations diagnosed by resolve_types), K5 (a rule finding is never hidden by a second, valid declaration; both orders). Outside: per-rule behaviour in company of other declarations (argued from C02), sets larger than the bounds.'),
  'C06': dict(text='Symbolic execution of project.semantic under every hash iteration order, of toposort apply under every permutation of the declarations and every toposort tie-break, and of stages::resolve_types under file partitions, '
                   'with reference edges symbolic; verdicts must equal the reference graph verdict whatever the order/partition.',
              tech='SMT-guided bounded symbolic execution of rustc MIR (z3), nondeterministic contract models for hash order and toposort ties', sect='§4 C06',
@@ -44,7 +44,7 @@ CLAIMS = {
  'C15': dict(text='Symbolic execution of LspProject::tokenize and From<LspTokenType> for Option<SemanticToken>: tokens with symbolic, ordered (line, col) are decoded under the LSP relative encoding by the solver; legend table over a symbolic TokenType; error result on lexical errors; '
                   'lexer line/column accounting over all UTF-8 texts up to N bytes. Replayed through the LSP binary.',
              tech='SMT-guided bounded symbolic execution of rustc MIR (z3)', sect='§4 C15',
-             note='Kernels K1, K2, K4, K5. Outside: token length in UTF-16 units, multi-line tokens (K3), edit histories (C11).'),
+             note='Kernels K1, K2, K4, K5, K6 (the token stream handed to the LSP keeps every lexeme). Outside: token length in UTF-16 units, multi-line tokens (K3), edit histories (C11).'),
  'C10': dict(text='Symbolic round trip of leaf literals: the literal node of a parsed template is made symbolic, the real renderer is executed symbolically (format!/to_string by contract), the rendered text is lexed by the lexer lifted on that text, '
                   'parsed by the real peg parser and compared with the derived PartialEq of Library; the solver decides value preservation and re-parsability for all values in the bound. write_ws lexeme separation as an inductive step. Replayed through write_to_string/parse_program.',
              tech='SMT-guided bounded symbolic execution of rustc MIR (z3): renderer -> lifted lexer -> generated parser', sect='§4 C10',
@@ -52,7 +52,7 @@ CLAIMS = {
  'C04': dict(text='Kani/CBMC proof harnesses over the compiled ironplc-dsl numeric constructors (all FixedPoint values, real time crate) decide panic freedom; '
                   'failing checks come with concrete playback values that are replayed through the public API and through `check` of a program containing the literal.',
              tech='bounded model checking with Kani/CBMC (bit-precise, compiled code)', sect='§4 C04', kani=True,
-             note='Kernels K2 (Kani), K3 (FixedPoint::parse on symbolic digit strings), K4 (AddressAssignment::try_from on symbolic direct-address texts, regex crate by contract with the patterns read from the MIR), K5 (parse_library error path on a token of symbolic type and symbolic UTF-8 text). Outside: stack depth, time budgets, panic sites not enumerated in evidence.'),
+             note='Kernels K2 (Kani), K3 (FixedPoint::parse on symbolic digit strings), K4 (AddressAssignment::try_from on symbolic direct-address texts, regex crate by contract with the patterns read from the MIR), K5 (parse_library error path on a token of symbolic type and symbolic UTF-8 text), K6 (parse_program + stages::analyze on template shapes with extreme limits and malformed initialisers: never a panic). Outside: stack depth, time budgets, panic sites not enumerated in evidence.'),
  'C09': dict(text='Kani/CBMC harnesses decide integer and duration value conversions over all 128-bit / FixedPoint values; mirsym kernels (when listed in evidence) execute the literal grammar actions on symbolic digit strings; '
                   'models are replayed through parse_program.',
              tech='bounded model checking with Kani/CBMC; SMT-based symbolic execution of MIR (z3)', sect='§4 C09', kani=True,
@@ -61,11 +61,11 @@ CLAIMS = {
                   'of preprocessor::remove_oscat_comment and of lsp_project::map_label; solver decides token tiling/text/line/col, offset preservation and span->position mapping for '
                   'every input in the bound; models are replayed through tokenize_program / the LSP binary.',
              tech='SMT-based bounded symbolic execution of rustc MIR (z3), lexer DFA lifted to an ite-DAG', sect='§4 C05',
-             note='Kernels K1,K2,K5,K6 (terminal rendering: every label of a diagnostic is drawn in its own file at its own span; codespan SimpleFiles/emit as recording stubs). Outside: grammar-action span plumbing and rule labels (K3), file-id fold (K4); sources longer than the bound.'),
+             note='Kernels K1,K2,K5,K3 (span and file id of every identifier node on template shapes), K6 (terminal rendering: every label of a diagnostic is drawn in its own file at its own span; codespan SimpleFiles/emit as recording stubs), K7 (labels of the duplicate-name rules on symbolic names). Outside: spans of nodes other than identifiers, labels of the other rules; sources longer than the bound.'),
  'C08': dict(text='Solver queries over the lexer lifted from MIR: every case pattern of every reserved word, every string of the reference trivia language up to n bytes; '
                   'bounded symbolic execution of insert_keyword_statement_terminators over symbolic token types. Violations are replayed through tokenize_program.',
              tech='SMT queries over lexer transition relation lifted from MIR; bounded symbolic execution of MIR (z3)', sect='§4 C08',
-             note='Kernels K1a,K1b,K2,K4 (Eq/Hash consistency of Id and Type under case folding),K5 (words the grammar matches by text, every case pattern, through parse_program),K6 (semantic rule verdicts with every identifier occurrence optionally upper-cased). Outside: equality of whole parsed libraries under re-spelling (grammar), textual keyword comparisons inside grammar actions unless listed.'),
+             note='Kernels K1a,K1b,K2,K4 (Eq/Hash consistency of Id and Type under case folding),K5 (words the grammar matches by text, every case pattern, through parse_program),K6 (semantic rule verdicts with every identifier occurrence optionally upper-cased), K7 (parse + full analysis of four programs with one identifier occurrence upper-cased). Outside: equality of whole parsed libraries under re-spelling (grammar), textual keyword comparisons inside grammar actions unless listed.'),
 }
 NOT_YET = 'check not built yet (work in progress)'
 def main():
